@@ -470,7 +470,7 @@ func runSave(c *core.Ctx) {
 					}
 					modOK, others := false, true
 					for _, g := range an.GuardingEdges(s.Block()) {
-						ifi := an.BlockIf(g.From)
+						ifi := g.If()
 						base, neg := an.CondBase(ifi.Cond)
 						isTrue := (g.Succ == 0) != neg
 						if ex, isEx := base.(*ssa.Extract); isEx && ex.Tuple == ssa.Value(cc) && ex.Index == 0 {
